@@ -218,7 +218,7 @@ func inject(r *gen.Rand, v *spec.Version, s string, f func(d defect)) {
 		m := v.Index(k)
 		// illegal values
 		ov := otherVals(m)
-		for _, bad := range []string{ov[r.Intn(len(ov))], ov[r.Intn(len(ov))], strings.ToLower(val), val + val, ""} {
+		for _, bad := range []string{ov[r.Intn(len(ov))], ov[r.Intn(len(ov))], strings.ToLower(val), val + val, "", val + strings.Repeat("A", 256), val + strings.Repeat(val, 65536/len(val))} {
 			if v.ValueIndex(m, bad) >= 0 {
 				continue
 			}
